@@ -596,6 +596,18 @@ def device_programs():
         {"op": "transfer", "src": T, "sw": L([(0, 0), (3, 0)]), "dst": T, "dw": L([(2, 1), (1, 1)]), "vols": L([3, 2]), "label": "t", "wash": 1},
     ]
     progs.append(h)
+    # the wash scheme given as a numpy integer (taken from an array of protocol parameters), and DiTi mode with every scheme
+    for diti in (False, True):
+        h = _hdr(f"devices/wash-schemes-diti{int(diti)}", "evo", base_labware(), wlmax=30, diti=diti, flags={"comp": False, "norm": False})
+        ops = []
+        for i, wsch in enumerate([1, 2, 3, 4, "flush", "reuse", 2, 4]):
+            o = {"op": "transfer", "src": T, "sw": L([(0, 0), (1, 0)]), "dst": P, "dw": L([(i % 3, 1), ((i + 1) % 3, 2)]), "vols": L([1, 1]),
+                 "label": f"scheme {wsch}", "wash": wsch}
+            if i >= 6:
+                o["washnp"] = True
+            ops.append(o)
+        h["ops"] = ops
+        progs.append(h)
     return progs
 
 
